@@ -2,6 +2,7 @@
 # usage: tools/regress_seeded.sh [name-glob]   -- every kept seeded change must still be reported by the quick check of its property
 cd /verif
 for d in seeded/${1:-*}/; do
-  n=$(basename $d); pid=$(python3 -c "import json;print(json.load(open('$d/meta.json'))['property'])")
+  n=$(basename $d); pid=$(python3 -c "import json;m=json.load(open('$d/meta.json'));print('SKIP' if m.get('superseded') else m['property'])")
+  if [ "$pid" = SKIP ]; then echo "mutant=$n superseded (see meta.json)"; continue; fi
   tools/detect_patch.sh $n /verif/$d/patch.diff $pid
 done
